@@ -769,9 +769,11 @@ def build(repo):
     interp = Cls("Interpreter")
     # the latches are the members the two Signal… methods touch; find their declarations (atomic or not)
     latch_names = []
-    for mname in ("SignalInterrupt", "SignalVectoredInterrupt"):
+    for mname in ("SignalInterrupt", "SignalVectoredInterrupt", "Reset"):
         m = re.search(r"\bvoid\s+%s\s*\(([^)]*)\)\s*\{" % mname, src)
         if not m:
+            if mname == "Reset":
+                continue        # the pinned upstream interpreter had no Reset
             fail("%s: %s not found" % (what, mname))
         j = match_close(src, m.end() - 1, what)
         _, params = parse_method_head("void %s(%s)" % (mname, m.group(1)), what)
@@ -799,9 +801,11 @@ def build(repo):
     add_fields(interp)
     ctx_in = {"cls": interp, "fields": interp.fields, "impl": None, "elems": {}, "classes": {"Interpreter": interp}}
     covered = []
-    for mname in ("SignalInterrupt", "SignalVectoredInterrupt"):
+    for mname in ("SignalInterrupt", "SignalVectoredInterrupt", "Reset"):
         m = re.search(r"\bvoid\s+%s\s*\(([^)]*)\)\s*\{" % mname, src)
         if not m:
+            if mname == "Reset":
+                continue        # the pinned upstream interpreter had no Reset
             fail("%s: %s not found" % (what, mname))
         j = match_close(src, m.end() - 1, what)
         _, params = parse_method_head("void %s(%s)" % (mname, m.group(1)), what)
@@ -858,8 +862,13 @@ def build(repo):
         if not re.search(rx, src):
             fail("%s: Processor::%s is not a plain forwarder to the interpreter" % (what, meth))
         calls.append({"method": "Processor." + meth, "kind": "method", "target": "Interpreter." + meth, "locks": []})
-    if src.count("impl->interpreter.") != 3:
-        fail("%s: the interpreter is used outside the three forwarders" % what)
+    nfw = 3
+    # Processor::Reset may additionally clear the interpreter's latches (init-only API, never concurrent with Run)
+    if re.search(r"void Processor::Reset\(\)\{impl->regs ?= ?RegisterState\(\);impl->interpreter\.Reset\(\);\}", src):
+        calls.append({"method": "Processor.Reset", "kind": "method", "target": "Interpreter.Reset", "locks": []})
+        nfw = 4
+    if src.count("impl->interpreter.") != nfw:
+        fail("%s: the interpreter is used outside the recognised forwarders" % what)
 
     # ---- teakra.cpp
     entries, wiring, objects = parse_teakra(repo, {"Apbp": set(apbp_methods), "ICU": set(icu.morder),
